@@ -32,6 +32,8 @@ pub struct Case {
     pub iso: Vec<u32>,
     pub hot: Vec<HotRule>,
     pub steps: Vec<Step>,
+    /// entries go through the library's global slot chain instead of the recording copy of it
+    pub global_chain: bool,
 }
 
 const VALUES: [&str; 3] = ["a", "b", "c"];
@@ -96,7 +98,8 @@ pub fn decode(u: &mut Bytes) -> Case {
             open += 1;
         }
     }
-    Case { iso, hot, steps }
+    let global_chain = u.tail_choice(3) == 2;
+    Case { iso, hot, steps, global_chain }
 }
 
 /// the parameter a rule looks at, per the rule documentation: the attachment under `param_key`
@@ -136,7 +139,7 @@ impl Property for C05 {
         vec![("prop", 300_000, 260)]
     }
     fn rule(&self) -> String {
-        "bytes -> either 1-3 isolation rules (threshold 1..5) or 1-2 hotspot Concurrency rules (threshold 1..4, param_index in {0,1,-1,-2,5} or param_key, per-value overrides 1..4, capacity 0(default)/3/4 with <= 3 distinct values), 4-44 steps build(batch 1..4, args of length 0..3 / none, attachments with/without the key) / exit(any open entry), up to 8 open entries; oracle: isolation admits <=> for every rule in_flight + n <= T, hotspot per extracted value (batch 1: admit <=> in_flight_v + 1 <= T_v; batch n>1: must admit if in_flight_v + n <= T_v, must reject if in_flight_v >= T_v), block type and triggered rule checked both in the Err text and in the BlockError a custom StatSlot receives; non-trivial = a rejection at the cap, then an exit, then an admission, with >= 2 values or >= 2 rules; distinct = distinct decoded cases".into()
+        "bytes -> either 1-3 isolation rules (threshold 1..5) or 1-2 hotspot Concurrency rules (threshold 1..4, param_index in {0,1,-1,-2,5} or param_key, per-value overrides 1..4, capacity 0(default)/3/4 with <= 3 distinct values), 4-44 steps build(batch 1..4, args of length 0..3 / none, attachments with/without the key) / exit(any open entry), up to 8 open entries; oracle: isolation admits <=> for every rule in_flight + n <= T, hotspot per extracted value (batch 1: admit <=> in_flight_v + 1 <= T_v; batch n>1: must admit if in_flight_v + n <= T_v, must reject if in_flight_v >= T_v), entries go through a recording copy of the global slot chain (block type and triggered rule checked both in the Err text and in the BlockError a custom StatSlot receives) or, a third of the cases, through the library's global slot chain itself (Err text only); non-trivial = a rejection at the cap, then an exit, then an admission, with >= 2 values or >= 2 rules; distinct = distinct decoded cases".into()
     }
     fn assumptions(&self) -> Vec<String> {
         vec![
@@ -276,7 +279,7 @@ pub fn run_case(case: &Case, cfg: &RunCfg) -> Verdict {
                 let mut req = Req::new(&res, *batch);
                 req.args = args.clone();
                 req.attachments = att.as_ref().map(|a| a.iter().cloned().collect());
-                match build_recorded(req) {
+                match build_either(req, case.global_chain) {
                     Ok(e) => {
                         if must_reject {
                             open.push(e);
@@ -309,12 +312,17 @@ pub fn run_case(case: &Case, cfg: &RunCfg) -> Verdict {
                         n_rej += 1;
                         let want_type = if case.hot.is_empty() { "Isolation" } else { "HotSpotParamFlow" };
                         let bt = block_type_of(&msg);
-                        let rbt = recd.as_ref().map(|r| r.block_type.clone()).unwrap_or_else(|| "<none>".into());
+                        let rbt = if case.global_chain { bt.clone() } else { recd.as_ref().map(|r| r.block_type.clone()).unwrap_or_else(|| "<none>".into()) };
                         if bt != want_type || rbt != want_type {
                             fail!(ID, "wrong-block-type", format!("wrong-block-type|{}|{}", want_type, bt), case,
                                 "step {}: rejection reported as {} (custom StatSlot saw {}) instead of {}", si, bt, rbt, want_type);
                         }
-                        let named = recd.as_ref().and_then(|r| r.rule_debug.clone());
+                        let named = if case.global_chain {
+                            // no recorder in the global chain: the rule named is looked for in the error text
+                            Some(blockers.iter().find(|b| msg.contains(b.as_str())).cloned().unwrap_or_else(|| "<none of the rules at their cap>".to_string()))
+                        } else {
+                            recd.as_ref().and_then(|r| r.rule_debug.clone())
+                        };
                         match named {
                             None => fail!(ID, "no-triggered-rule", "no-triggered-rule", case, "step {}: rejection names no rule", si),
                             Some(nm) => {
@@ -359,6 +367,7 @@ pub fn run_case(case: &Case, cfg: &RunCfg) -> Verdict {
     let multi = values_seen.len() >= 2 || active_iso.len() >= 2 || hot_specs.len() >= 2;
     let mut classes = vec![if case.hot.is_empty() { "isolation" } else { "hotspot-concurrency" }];
     if pattern == 3 { classes.push("reject-exit-admit"); }
+    classes.push(if case.global_chain { "through-the-global-slot-chain" } else { "through-the-recording-chain" });
     if n_either > 0 { classes.push("batch-in-between-either-accepted"); }
     if case.hot.iter().any(|h| !h.param_key.is_empty()) { classes.push("keyed-parameter"); }
     if case.hot.iter().any(|h| h.param_index < 0) { classes.push("negative-index"); }
